@@ -271,7 +271,9 @@ public:
             int index;
         };
 
-        auto re = QRegularExpression(pattern);
+        // The date in a rotated name is written by QDate::toString(), i.e. with the digits of the system
+        // locale (Arabic-Indic, Persian, Devanagari...): \d has to match those too
+        auto re = QRegularExpression(pattern, QRegularExpression::UseUnicodePropertiesOption);
         auto dir = QDir(baseDir());
         auto files = QList<RotatedFile>();
 
